@@ -486,10 +486,16 @@ def halo_clause(model, rep, funcs):
         dg = model.func(PCC + "_differece_of_gaussian")
     except Exception:
         pass
-    if dp is not None and dg is not None:
+    if dp is not None:
         rep.instance("S17", dp.loc())
-        ok, why = Matcher(dp).all_of(["$f = _differece_of_gaussian(image, sigma_low, sigma_high)", "$pos = find_maxima($f, sigma_low, 0.0)", "return simple_pick($f, $pos)"])
-        ok2, why2 = Matcher(dg).all_of(["$l = ndi.gaussian_filter(image, sigma_low)", "$h = ndi.gaussian_filter(image, sigma_high)", "return $l - $h"])
+        if dg is not None:
+            ok, why = Matcher(dp).all_of(["$f = _differece_of_gaussian(image, sigma_low, sigma_high)", "$pos = find_maxima($f, sigma_low, 0.0)", "return simple_pick($f, $pos)"])
+            ok2, why2 = Matcher(dg).all_of(["$l = ndi.gaussian_filter(image, sigma_low)", "$h = ndi.gaussian_filter(image, sigma_high)", "return $l - $h"])
+        else:
+            # the difference is computed in the picker itself (the private helper was inlined)
+            ok, why = Matcher(dp).all_of(["$f = ndi.gaussian_filter(image, sigma_low) - ndi.gaussian_filter(image, sigma_high)", "$pos = find_maxima($f, sigma_low, 0.0)",
+                                          "return simple_pick($f, $pos)"])
+            ok2, why2 = ok, why
         rep.ob("S17", dp.anchor, "DoG response is (narrow Gaussian) - (wide Gaussian), positive on bright blobs; maxima searched with radius sigma_low", bool(ok and ok2),
                why or why2, node=dp.node, fn=dp, clause="maxima", stmt="DoG polarity")
     sp = funcs.get(PCC + "simple_pick")
@@ -551,10 +557,22 @@ def bank_clause(model, rep, funcs):
         rep.instance("F.bank", h.loc())
         M = Matcher(h)
         b = {}
-        ok, why = M.all_of(["$all = np.stack([ncc_landscape_no_pad(image - np.mean(image), $t - np.mean($t), ...) for $t in templates], axis=0)",
-                            "$arg = np.argmax($all, axis=0)", "$mx = np.max($all, axis=0)", "$pos = find_maxima($mx, min_distance, min_score)", "$score = _sample_score($mx, $pos)",
-                            "$idx = np.array([$arg[tuple(np.round($p).astype($$ty))] for $p in $pos], ...)", "$q = self._index_to_quaternions($idx)",
-                            "return $pos + $$off, $q, {'score': $score}"], b)
+        head = ["$all = np.stack([ncc_landscape_no_pad(image - np.mean(image), $t - np.mean($t), ...) for $t in templates], axis=0)",
+                "$arg = np.argmax($all, axis=0)", "$mx = np.max($all, axis=0)", "$pos = find_maxima($mx, min_distance, min_score)", "$score = _sample_score($mx, $pos)"]
+        tail = ["$q = self._index_to_quaternions($idx)", "return $pos + $$off, $q, {'score': $score}"]
+        # the arg-max map read at the voxel nearest to each maximum: per maximum, or gathered for all maxima at once (same voxels, same order)
+        gathers = [["$idx = np.array([$arg[tuple(np.round($p).astype($$ty))] for $p in $pos], ...)"],
+                   ["$z, $y, $x = np.round($pos).astype($$ty).T", "$idx = $arg[$z, $y, $x]"],
+                   ["$z, $y, $x = np.round($pos).astype($$ty).T", "$idx = $arg[$z, $y, $x].astype(...)"],
+                   ["$idx = $arg[tuple(np.round($pos).astype($$ty).T)]"]]
+        ok, why = False, ""
+        for gt in gathers:
+            b_try: dict = {}
+            ok, why_ = M.all_of(head + gt + tail, b_try)
+            if ok:
+                b = b_try
+                break
+            why = why or why_
         rep.ob("SAME", h.anchor, "landscapes are stacked in template order; the arg-max over that axis, read at each maximum, indexes the quaternions", ok, why,
                node=h.node, fn=h, clause="bank", stmt="ZNCC argmax")
         okc, det = None, why
